@@ -446,3 +446,6 @@ def _check_comparisons(out, events, refkey):
         if got != want:
             out.fail("comparison", {"i": i, "j": j, "got": got, "want": want})
             return
+
+
+RULE = RULE + " " + 'Later additions: ops remove_recent / resched (cancel a recent event, schedule two) / str (printing is an observer); events created on other threads and after clear(); ids and comparison operators looked at only after the history in half of the cases; on copies of the list every pending position in turn is removed, two events are added and the copy is drained.'
